@@ -116,6 +116,69 @@ theorem C12_capacity_restored (n max : Nat) (hpos : 0 < max) :
 example : (Srv.run (effMax none) true (.reading [] false) (abandonSignals .sending)).1 = .over := by decide
 
 
+def isEnded : SrvAction → Bool
+  | .ended _ => true
+  | _ => false
+
+theorem step_ended (max : Nat) (sched : Bool) (p : SrvPhase) (e : SrvEvent) (hp : p ≠ .over) :
+    ((Srv.step max sched p e).1 = .over → ((Srv.step max sched p e).2.filter isEnded).length = 1) ∧
+    ((Srv.step max sched p e).1 ≠ .over → ((Srv.step max sched p e).2.filter isEnded).length = 0) := by
+  cases p with
+  | over => exact absurd rfl hp
+  | reading buf sp =>
+    cases e with
+    | data bs =>
+      simp only [Srv.step]
+      cases hd : decodeRequest max (buf ++ bs) with
+      | ok pr =>
+        obtain ⟨r, rest⟩ := pr
+        cases sp <;> cases sched <;> simp [isEnded, List.filter]
+      | error err =>
+        cases hn : err.needsMore <;> simp [hn, isEnded, List.filter]
+    | fin => simp [Srv.step, isEnded, List.filter]
+    | reset => simp [Srv.step, isEnded, List.filter]
+    | stopSending => simp [Srv.step]
+    | readAll => simp [Srv.step]
+    | handlerDone r => simp [Srv.step]
+  | handling =>
+    cases e with
+    | handlerDone r =>
+      simp only [Srv.step]
+      cases encodeResponse max r <;> simp [isEnded, List.filter]
+    | stopSending => simp [Srv.step, isEnded, List.filter]
+    | data bs => simp [Srv.step]
+    | fin => simp [Srv.step]
+    | reset => simp [Srv.step]
+    | readAll => simp [Srv.step]
+  | flushing =>
+    cases e <;> simp [Srv.step, isEnded, List.filter]
+
+/-- **Every request stream is wound up exactly once, or not yet**: over any event sequence at all (any
+bytes, FIN/RESET/STOP at any point, any scheduler choice) the serving machine reports the end of the
+stream -- the point where the task returns and every per-request resource (handler future, stream
+halves, slot) is dropped -- exactly once if it has reached its final phase, and never before. -/
+theorem C12_ends_exactly_once (max : Nat) (sched : Bool) (p : SrvPhase) (es : List SrvEvent) (hp : p ≠ .over) :
+    ((Srv.run max sched p es).1 = .over → ((Srv.run max sched p es).2.filter isEnded).length = 1) ∧
+    ((Srv.run max sched p es).1 ≠ .over → ((Srv.run max sched p es).2.filter isEnded).length = 0) := by
+  induction es generalizing p with
+  | nil => simp [Srv.run, hp]
+  | cons e t ih =>
+    simp only [Srv.run, List.filter_append, List.length_append]
+    have hs := step_ended max sched p e hp
+    by_cases ho : (Srv.step max sched p e).1 = .over
+    · have h0 : Srv.run max sched (Srv.step max sched p e).1 t = (.over, []) := by rw [ho]; exact srv_over_run max sched t
+      rw [h0]
+      simp [hs.1 ho]
+    · have := ih _ ho
+      rw [hs.2 ho]
+      simpa using this
+
+/-- once wound up, nothing more happens on the stream whatever the peer sends -/
+theorem C12_over_is_final (max : Nat) (sched : Bool) (es : List SrvEvent) :
+    Srv.run max sched .over es = (.over, []) := srv_over_run max sched es
+
+example : ((Srv.run (effMax none) true (.reading [] false) (abandonSignals .sending)).2.filter isEnded).length = 1 := by decide
+
 /-- **Abandonment is observed where the model says**: the service call (readiness and call in one `oneshot` future) is raced, unconditionally, against the caller stopping the response stream, and the caller side is one stream per call that is reset when the call future is dropped (read off the source on this run). -/
 theorem C12_rpc_path_is_translated :
     Gen.serveStepsGen = [.readRequest, .stampPeerId, .stampOrigin, .stampRemoteAddr, .stampInbound,
